@@ -4,6 +4,7 @@ import AasVerif.Lemmas.HierOut
 import AasVerif.Lemmas.HierCtor
 import AasVerif.Lemmas.HierPerm
 import AasVerif.Lemmas.HierSer
+import AasVerif.Lemmas.HierMethods
 /-!
 # C05 — The intermediate model resolves inheritance faithfully
 
@@ -164,6 +165,21 @@ theorem invs_stacked (hu : UniqueNames cs) (hp : ParentsExist cs) (ha : Acyclic 
         = (linAnc (parentsOf cs) (topo cs) c).flatMap (ownItems cs (·.ownInvs)) ++ ownItems cs (·.ownInvs) c
     ∧ (invsOf cs (topo cs) c).Nodup :=
   stacked (·.ownInvs) hu hp ha hown c hc
+
+/-- **Methods**: either the pass reports a conflict (diamond over a method, override), or the methods of
+every class have the shape of the properties — and the inherited methods do not even share a name. -/
+theorem methods_stacked (hu : UniqueNames cs) (hp : ParentsExist cs) (ha : Acyclic cs)
+    (hown : OwnNodup cs (·.ownMethods))
+    (hok : (stackMethods (parentsOf cs) (ownItems cs (·.ownMethods)) (topo cs)).2 = false)
+    (c : Name) (hc : c ∈ names cs) :
+    methodsOf cs (topo cs) c
+        = (linAnc (parentsOf cs) (topo cs) c).flatMap (ownItems cs (·.ownMethods)) ++ ownItems cs (·.ownMethods) c
+    ∧ (methodsOf cs (topo cs) c).Nodup := by
+  have ho := (topoState_spec hu hp ha).2.2
+  have h := (methods_spec (ho.nodup hu) ho.sorted hok c (ho.mem.mpr hc)).1
+  unfold methodsOf
+  rw [h]
+  exact stacked (·.ownMethods) hu hp ha hown c hc
 
 /-- In an accepted model no two properties of a class share a name. -/
 theorem props_names_nodup {o : Out} (h : translate cs = .ok o) (c : Name) (hc : c ∈ topo cs) :
